@@ -47,7 +47,7 @@ def expand(op, results):
         return [("(OStoreFreeze %d)" % node, cres(results[0]))]
     if n == "mutate":
         return [("(OMutate %d %s)" % (node, c04.cop(op["m"])), cres(results[0]))]
-    if n in ("iter", "iter2"):
+    if n in ("iter", "iter2", "elements"):
         out, prev = [], None
         for r in results:
             k = r[0]
@@ -142,7 +142,7 @@ def run(ctx):
     for r in fps:
         if r.get("position"):
             ctx.finding("line-table:" + r["position"].split(": ", 1)[-1], "footprints round %d: %s" % (r["round"], r["position"]), {"module": r["src"], "seed": r["seed"], "round": r["round"]})
-        for q in r["seqs"]:
+        for q in r["seqs"] or []:
             for st in q["steps"]:
                 for w in st["writes"]:
                     fp_writes += 1
@@ -152,7 +152,7 @@ def run(ctx):
                                     "operation %s wrote the %s of %s node %d although its frozen flag was set (round %d)" % (st["op"], FIELD[w["field"]], kind, w["node"], r["round"]),
                                     {"module": r["src"], "seed": r["seed"], "round": r["round"], "sequence": q["steps"],
                                      "how": "c05 child -scenario footprints -seed %d -rounds %d (state read through starlark.VerifFrozen / VerifIterCount)" % (r["seed"], r["round"] + 1)})
-    fplimit = 8 if ctx.quick() else 250
+    fplimit = 8 if ctx.quick() else 300
 
     def fop(st):
         o, n = st["op"], st["node"]
@@ -162,11 +162,11 @@ def run(ctx):
             return "(OContains %d %s)" % (n, cz(st.get("a", 0)))
         if o == "index":
             return "(OIndex %d %d)" % (n, st.get("i", 0))
-        if o == "begin":
+        if o in ("begin", "ebegin"):
             return "(OIterBegin %d)" % n
         if o == "next":
             return "OIterNext"
-        if o == "done":
+        if o in ("done", "edone"):
             return "OIterDone"
         if o == "compare":
             return "(OCompare %d %d)" % (n, st.get("b", 0))
@@ -186,18 +186,26 @@ def run(ctx):
     for gi, r in enumerate(fps[:fplimit]):
         t, _, _ = c04.render_graph({"desc": r["desc"]})
         fgterms.append(t)
-        for q in r["seqs"]:
+        for q in r["seqs"] or []:
             ops = clist([fop(st) for st in q["steps"]])
             obs = clist([clist(["(LObj %d %s)" % (w["node"], FIELD[w["field"]]) for w in st["writes"]]) for st in q["steps"]])
             fcases.append("(%d, (%s, %s))" % (gi, ops, obs))
             frefs.append((r, q))
     if not fps:
         ctx.broken("harness:C05 footprints", "the footprints scenario did not run")
-    # one Coq run for both kinds of cases: inl = interleaved scripts, inr = write footprints
+    # Coq runs over chunks of graphs; both kinds of cases in each: inl = interleaved scripts, inr = write footprints
     bad_model, bad_fp, bad_w = [], [], []
-    allcases = ["(inl %s)" % c for c in cases] + ["(inr (%d, %s))" % (len(gterms) + int(c[1:].split(",", 1)[0]), c.split(",", 1)[1][:-1].strip()) for c in fcases]
-    if allcases:
-        header = HEADER + "Definition graphs : list graph := [\n" + ";\n".join(gterms + fgterms) + "].\n" + """
+    units = []   # (graph term, [(kind, global index, case text with %d for the graph index)])
+    for i, c in enumerate(cases):
+        gi, rest = c[1:].split(",", 1)
+        units.append((gterms[int(gi)], [("s", i, "(inl (%d," + rest.replace("%", "%%") + " : case)")]))
+    per_graph = {}
+    for i, c in enumerate(fcases):
+        gi, rest = c[1:].split(",", 1)
+        per_graph.setdefault(int(gi), []).append(("w", i, "(inr (%d," + rest.replace("%", "%%") + " : case)"))
+    for gi in sorted(per_graph):
+        units.append((fgterms[gi], per_graph[gi]))
+    CODE = """
 Definition fheaps := Eval vm_compute in map frozen_heap graphs.
 Definition worlds := Eval vm_compute in map world_of graphs.
 Definition case := ((nat * list (nat * op) * list (list result)) + (nat * (list op * list (list location))))%type.
@@ -212,19 +220,43 @@ Definition f_ok (c : case) : bool :=
   | inr _ => true
   end.
 """
-        bm, bf = coq_mismatches(ctx, "c05_cases", header, allcases, ["m_ok", "f_ok"], shard=100000, timeout=800)
-        bad_model = [i for i in bm if i < len(cases)]
-        bad_w = [i - len(cases) for i in bm if i >= len(cases)]
-        bad_fp = [i for i in bf if i < len(cases)]
-        for i in bad_fp:
-            r = refs[i]
-            ctx.broken("correspondence:C05.Model footprints", "the model predicts a write or a conflict for a script over frozen values (round %d, N=%d): theorem frozen_ops_write_nothing would be contradicted" % (r["round"], r["n"]))
-        for i in bad_model:
-            r = refs[i]
-            ctx.broken("correspondence:C05.Model", "model transcripts differ from the implementation's for scenario values N=%d seed %d round %d (module: %s)" % (r["n"], r["seed"], r["round"], (r.get("src") or "")[-400:]))
-        for i in bad_w[:3]:
-            r, q = frefs[i]
-            ctx.broken("correspondence:C05.Model write footprints", "round %d: the writes observed through the hooks differ from the model's for the sequence %s" % (r["round"], q["steps"]))
+    chunk, nchunk = [], 0
+
+    def flush():
+        nonlocal chunk, nchunk
+        if not chunk:
+            return
+        texts, index = [], []
+        for k, (gt, cs) in enumerate(chunk):
+            for kind, gidx, txt in cs:
+                texts.append(txt % k)
+                index.append((kind, gidx))
+        header = HEADER + "Definition graphs : list graph := [\n" + ";\n".join(g for g, _ in chunk) + "].\n" + CODE
+        bm, bf = coq_mismatches(ctx, "c05_cases_%d" % nchunk, header, texts, ["m_ok", "f_ok"], shard=100000, timeout=800)
+        for j in bm:
+            (bad_model if index[j][0] == "s" else bad_w).append(index[j][1])
+        for j in bf:
+            if index[j][0] == "s":
+                bad_fp.append(index[j][1])
+        chunk, nchunk = [], nchunk + 1
+
+    ncase = 0
+    for u in units:
+        chunk.append(u)
+        ncase += len(u[1])
+        if len(chunk) >= 60 or ncase >= 1500:
+            flush()
+            ncase = 0
+    flush()
+    for i in bad_fp:
+        r = refs[i]
+        ctx.broken("correspondence:C05.Model footprints", "the model predicts a write or a conflict for a script over frozen values (round %d, N=%d): theorem frozen_ops_write_nothing would be contradicted" % (r["round"], r["n"]))
+    for i in bad_model:
+        r = refs[i]
+        ctx.broken("correspondence:C05.Model", "model transcripts differ from the implementation's for scenario values N=%d seed %d round %d (module: %s)" % (r["n"], r["seed"], r["round"], (r.get("src") or "")[-400:]))
+    for i in bad_w[:3]:
+        r, q = frefs[i]
+        ctx.broken("correspondence:C05.Model write footprints", "round %d: the writes observed through the hooks differ from the model's for the sequence %s" % (r["round"], q["steps"]))
     ctx.log("footprints: %d steps in %d rounds, %d observed writes; %d sequences compared with the model in Coq, %d mismatches" % (fp_steps, len(fps), fp_writes, len(fcases), len(bad_w)))
     ctx.log("coq: %d rounds (%d model events) evaluated: %d transcript mismatches, %d footprint mismatches; %d ops outside the Coq repertoire" % (len(cases), nev, len(bad_model), len(bad_fp), skipped))
     cov = {
